@@ -466,3 +466,33 @@ func (i *interpreter) errorsAs(fr *frame, err, target iface) value {
 	}
 	return false
 }
+
+func init() {
+	sortSlice := func(fr *frame, args []value) value {
+		x := args[0].(iface)
+		s, ok := x.v.([]value)
+		if !ok {
+			panic(engineError{"sort.Slice on non-slice"})
+		}
+		less := args[1]
+		for i := 1; i < len(s); i++ {
+			for j := i; j > 0; j-- {
+				r := call(fr.i, fr, 0, less, []value{j, j - 1})
+				var lt bool
+				switch b := r.(type) {
+				case bool:
+					lt = b
+				case symv:
+					lt = fr.px().branch(b.t)
+				}
+				if !lt {
+					break
+				}
+				s[j], s[j-1] = s[j-1], s[j]
+			}
+		}
+		return nil
+	}
+	externals["sort.Slice"] = sortSlice
+	externals["sort.SliceStable"] = sortSlice
+}
